@@ -280,6 +280,7 @@ def run_kani_group(pid, kcfg, tier, seed, clock, gi=0):
             # MAX_REPLAYS harnesses are replayed, the others are recorded in the first replay file
             refuted.sort(key=lambda x: x[0])
             max_replays = int(os.environ.get("VERIF_MAX_REPLAYS", "2"))
+            no_replay = set(h["name"] for u_, h in sel if h.get("replay") == "none")
             for i, (_, u, name, unknown, res) in enumerate(refuted):
                 key = hashlib.sha256((name + json.dumps([t["tag"] for t in unknown])).encode()).hexdigest()[:10]
                 rpath = os.path.join(VERIF, "replay", "%s-%s-%s.json" % (pid, name, key))
@@ -290,7 +291,12 @@ def run_kani_group(pid, kcfg, tier, seed, clock, gi=0):
                     "verifier_output_tail": res["raw_tail"],
                     "how_to_replay": "bin/check --replay %s" % os.path.relpath(rpath, VERIF),
                 }
-                if i < max_replays:
+                if name in no_replay:
+                    # the harness observes the callee through argument-recording `#[kani::stub]`s;
+                    # natively the stubs are not applied (the real callee runs, nothing is
+                    # recorded), so a native run of it fails whatever the code does and proves nothing
+                    pb = {"reproduced": None, "why": "harness built on argument-recording stubs, which are not applied under native playback: CBMC's refutation stands, no native failing input"}
+                elif i < max_replays:
                     hlog = os.path.join(log_dir, name)
                     os.makedirs(hlog, exist_ok=True)
                     log("[%s] %s refuted on %s; replaying the counterexample natively" % (pid, name, ",".join(t["tag"] for t in unknown)))
